@@ -17,16 +17,23 @@ def setup_step(I):
                     "_convergence_test_fn": I.getattr(s, "_get_span")})
     return Ctx(self=s, _args=[], gamma=gamma, g0=g0, V=values_arr())
 def newv(c, x): return Bell(c.V, c.gamma, ST(x)) - c.g0
-contract(f"{RV}._iteration_step", setup=setup_step,
+# class invariant of RelativeValueIteration between sweeps: gain == values[N-1]  (established by _initialize_solver_state_elements,
+# preserved by _iteration_step + `self.values = new_values` in solve, re-established by _restore_state_from_checkpoint)
+def rvi_inv(c, q): return toz3(c["self"].attrs["gain"]) == toz3(c["self"].attrs["values"].get((N - 1,)))
+def ret_rstep(c):
+    s = c["self"]; V = s.attrs["values"]; g0 = s.attrs["gain"]
+    new = SArr((N,), lambda idx: Bell(V, z3.RealVal(1), ST(toz3(idx[0]))) - toz3(g0))
+    return (new, span_of(lambda i: toz3(new.get((i,))) - toz3(V.get((i,))), N))
+def eff_rstep(I, c):
+    s = c["self"]; new, _ = ret_rstep(c); I.note_write(s, "gain"); s.attrs["gain"] = new.get((N - 1,))
+contract(f"{RV}._iteration_step", setup=setup_step, requires=rvi_inv, returns=ret_rstep, effects=eff_rstep, modifies={"gain"},
     ensures={"new_values": lambda c, q: q.forall(0, N, lambda x: toz3(c.result[0].get((x,))) == newv(c, x)),
+             "length": lambda c, q: toz3(c.result[0].shape[0]) == N,
              "span": lambda c, q: toz3(c.result[1]) == span_of(lambda i: newv(c, i) - VFUN(i), N),
              "gain_is_last": lambda c, q: toz3(c.self.attrs["gain"]) == newv(c, N - 1),
-             # the property's reading: the reported gain is a component of B(V) - V (then Lean rvi_gain_bracket applies)
-             "gain_is_residual": lambda c, q: toz3(c.self.attrs["gain"]) == Bell(c.V, c.gamma, ST(N - 1)) - VFUN(N - 1)})
-# the same with the solve-loop invariant gain == values[-1] assumed (holds from the second sweep on)
-def setup_step_inv(I):
-    c = setup_step(I); I.assume(c.g0 == VFUN(N - 1)); return c
-contract(f"{RV}._iteration_step#inv", setup=setup_step_inv, ensures={})
+             # the property's reading: the reported gain is the last component of B(V) - V (then Lean rvi_gain_within applies)
+             "gain_is_residual": lambda c, q: toz3(c.self.attrs["gain"]) == Bell(c.V, c.gamma, ST(N - 1)) - VFUN(N - 1),
+             "CANARY_gain_is_first": lambda c, q: toz3(c.self.attrs["gain"]) == newv(c, 0)})
 
 # ---- initial values (Solver._initialize_values) and RVI initialisation
 SOLV = "mdpax.core.solver.Solver"
